@@ -8,7 +8,8 @@
 (*   pass_env ones (target or configuration level).                                                     *)
 (*     Sees(t)     what the action of t may see of the caller environment: the caller's value of every  *)
 (*                 listed variable, nothing of any other; a variable plz sets itself (Own: TMP_DIR)     *)
-(*                 keeps plz's value whatever the caller has and whether or not it is listed.           *)
+(*                 keeps plz's value whatever the caller has and whether or not it is listed; PATH is   *)
+(*                 plz's own ([build] path) unless listed, and the caller's when listed.                *)
 (*     MustRun     targets never built, or with a hashed variable whose value differs from the value    *)
 (*                 at the target's last run.                                                            *)
 (*     MayNotRun   every other target (histories change nothing but the caller environment); their      *)
@@ -25,19 +26,27 @@
 EXTENDS Naturals, Sequences, FiniteSets, TLC, Json
 CONSTANTS MaxEdits,     \* bound on SetEnv steps per history
           Cfgs,         \* configuration variants explored
+          InitVals,     \* values a variable may have in the initial environment (later SetEnv steps reach all values)
           HashValues,   \* TRUE: rule/config hash covers pass_env VALUES (as the code); FALSE: names only
           EmitAll       \* TRUE: print every history ending in a build; FALSE: only those at the edit bound
-V    == {"A", "B", "TMP_DIR"}
-Own  == {"TMP_DIR"}                 \* plz assigns these itself in every build action
+V    == {"A", "B", "TMP_DIR", "PATH"}
+Own  == {"TMP_DIR"}                 \* plz assigns these itself in every build action, listed or not
+\* PATH is special in the code (core/config.go getBuildEnv / setBuildPath, includePath): when nobody lists it the action
+\* gets plz's own PATH (install location + [build] path) whatever the caller has; when it is listed (config passenv /
+\* passunsafeenv: install location + caller's PATH; target pass_env: the caller's PATH) the caller's value is what the
+\* action resolves tools with, so it is a caller variable like any other: hashed iff listed through pass_env.
+OwnUnlessListed == {"PATH"}
 Vals == {"unset", "v0", "v1"}
+\* the caller's PATH must stay usable: it is never unset (v0 / v1 = a working PATH plus a distinguishing directory)
+ValsOf(v) == IF v = "PATH" THEN {"v0", "v1"} ELSE Vals
 T    == 1..4
 \* the fixed menu of targets: pass_env lists
-PassEnv == <<{"A"}, {}, {"B", "TMP_DIR"}, {"A", "B"}>>
+PassEnv == <<{"A"}, {}, {"B", "TMP_DIR"}, {"A", "PATH"}>>
 \* configuration variants: [build] passenv / passunsafeenv
-CfgPass(c)   == CASE c = "passB" -> {"B"} [] c = "passOwn" -> {"TMP_DIR"} [] OTHER -> {}
+CfgPass(c)   == CASE c = "passB" -> {"B"} [] c = "passOwn" -> {"TMP_DIR"} [] c = "passPath" -> {"PATH"} [] OTHER -> {}
 CfgUnsafe(c) == CASE c = "unsafeB" -> {"B"} [] c = "unsafeA" -> {"A"} [] c = "unsafeOwn" -> {"TMP_DIR"}
-                  [] c = "passB" -> {"A"} [] OTHER -> {}
-AllCfgs == {"none", "unsafeB", "unsafeA", "passB", "unsafeOwn", "passOwn"}
+                  [] c = "passB" -> {"A"} [] c = "unsafePath" -> {"PATH"} [] OTHER -> {}
+AllCfgs == {"none", "unsafeB", "unsafeA", "passB", "unsafeOwn", "passOwn", "passPath", "unsafePath"}
 Nil == [nil |-> TRUE]
 
 VARIABLES env,       \* caller environment: V -> Vals
@@ -52,7 +61,8 @@ vars == <<env, cfg, ran, rec, executed, edits, hist>>
 Hashed(c, t)  == PassEnv[t] \cup CfgPass(c)
 Listed(c, t)  == Hashed(c, t) \cup CfgUnsafe(c)
 \* what the action of t sees of variable v when the caller environment is e
-Sees(c, t, e) == [v \in V |-> IF v \in Own THEN "own" ELSE IF v \in Listed(c, t) THEN e[v] ELSE "absent"]
+Sees(c, t, e) == [v \in V |-> IF v \in Own THEN "own" ELSE IF v \in Listed(c, t) THEN e[v]
+                               ELSE IF v \in OwnUnlessListed THEN "own" ELSE "absent"]
 MustRun(c, r, e) == {t \in T : r[t] = Nil \/ \E v \in Hashed(c, t) : r[t][v] # e[v]}
 
 \* ------------------------------------------------------------------ algorithm level
@@ -63,16 +73,17 @@ AlgoEnv(c, t, e) ==
   [v \in V |-> IF v \in Own THEN "own"
                ELSE IF v \in PassEnv[t] THEN e[v]                                   \* os.Getenv
                ELSE IF v \in CfgPass(c) \cup CfgUnsafe(c) THEN e[v]                 \* os.LookupEnv, skipped when unset
+               ELSE IF v \in OwnUnlessListed THEN "own"                             \* includePath: install location + [build] path
                ELSE "absent"]
 AlgoRuns(c, rc, e) == {t \in T : rc[t] = Nil \/ rc[t].hash # RuleHash(c, t, e)}
 
 \* ------------------------------------------------------------------ histories
-Init == /\ env \in [V -> Vals] /\ cfg \in Cfgs
+Init == /\ env \in {e \in [V -> Vals] : \A v \in V : e[v] \in ValsOf(v) \cap InitVals} /\ cfg \in Cfgs
         /\ ran = [t \in T |-> Nil] /\ rec = [t \in T |-> Nil] /\ executed = {} /\ edits = 0
         /\ hist = <<[act |-> "Init", cfg |-> cfg, env |-> env]>>
 LastIsBuild == hist[Len(hist)].act = "Build"
 SetEnv == \E v \in V, x \in Vals :
-            /\ env[v] # x /\ edits < MaxEdits
+            /\ x \in ValsOf(v) /\ env[v] # x /\ edits < MaxEdits
             /\ Len(hist) > 1                    \* the first step of a history is a build under the initial environment
             /\ env' = [env EXCEPT ![v] = x] /\ edits' = edits + 1
             /\ hist' = Append(hist, [act |-> "SetEnv", v |-> v, val |-> x])
@@ -90,6 +101,8 @@ Build ==
                                  \* what each target's output (the dumped environment) shows after this build
                                  sees |-> [t \in T |-> Sees(cfg, t, ran1[t])],
                                  listed |-> [t \in T |-> Listed(cfg, t)],
+                                 \* why a target must run: its hashed variables whose value changed since its last run
+                                 changed |-> [t \in T |-> IF ran[t] = Nil THEN {} ELSE {v \in Hashed(cfg, t) : ran[t][v] # env[v]}],
                                  \* everything of the caller environment the action environment may depend on (RULE_HASH
                                  \* covers the caller's value of a hashed variable even when plz overrides the variable)
                                  dependsOn |-> [t \in T |-> [v \in Listed(cfg, t) |-> ran1[t][v]]],
@@ -112,5 +125,6 @@ View == <<env, cfg, ran, rec, executed, edits, LastIsBuild>>
 EmitHist == (LastIsBuild /\ (EmitAll \/ edits = MaxEdits)) =>
               PrintT(<<"BEHAVIOUR", ToJson([cfg |-> cfg, env0 |-> hist[1].env, steps |-> Tail(hist),
                                             passEnv |-> [t \in T |-> PassEnv[t]],
-                                            cfgPass |-> CfgPass(cfg), cfgUnsafe |-> CfgUnsafe(cfg), own |-> Own])>>)
+                                            cfgPass |-> CfgPass(cfg), cfgUnsafe |-> CfgUnsafe(cfg), own |-> Own,
+                                            ownUnlessListed |-> OwnUnlessListed])>>)
 =============================================================================
